@@ -93,6 +93,7 @@ fn main() {
                         fam_ng::gen_exh(n, len, &mut out)
                     }
                 }
+                "ng" if extra.iter().any(|x| x == "wide") => fam_ng::gen_wide(&mut r, cases, size, &mut out),
                 "ng" => fam_ng::gen(&mut r, cases, size, &mut out),
                 "iter" => fam_iter::gen(&mut r, cases, size, &mut out),
                 "parser" => fam_parser::gen(&mut r, cases, size, &extra, &mut out),
